@@ -1,42 +1,141 @@
 HOOK_COMMITS = ['20c5bda44c5b57174b02a8da88de1c680cb2d6b6', 'fa4f5514684a9feff03b043497a55ef3f2bee848', '09cd0aad1d95367e9e7d8714f8eda56d0cc7f4f3', '663a1ed881c5b7adb92e4dc595c8abd9a876fe77', '48bb514d15416cadbc41880bc79212a0559c4ea4', '271f66b0dbc7f4d6374c397361bf7092bac6ad21', '129f95268b5951096d7796d892103670ff3da07a', 'dce3450c9883891426534d6d2d8599335e01cd82', 'f8b5271aa55e9dd0605d980b80bcb5209f480a2d', '268c4319b5d2e73c04c70ebb30c716fb7095bce8', '6b2266efdac6753b5a7f5a16fd8246a74320e188', 'a32b93457403772fd0bd74be85c1bc970da6efe0', '2939f564350560785cbde7ba12f611fca6f479a6', '33ea14499147aa6fa4414ae09c9faf34b4460b02', 'a8861dd5563abdfe82f018d8f117b0fb9a2286e4', '618ac0f09e77a3f92a4d7ef940c2cc4ef58ba6d8', '4c3cdbea57b2ce0f800d4cef90ab052963285dcf']
-CLAIMS = {
- "C01": {"text": "Go link of double-entry conservation, proved for every posting list: Transaction.VolumeUpdates returns, for every (account, asset) touched by a posting, an entry whose Input is exactly the sum of the amounts credited to that pair and whose Output is exactly the sum debited (source==destination postings counted on both sides), every entry is of that form (also after the stable sort), and Store.CommitTransaction hands exactly that list to UpdateVolumes, once. Hence the delta applied to stored volumes has, per asset, equal total input and output = the sum of posting amounts.",
-         "note": "Not decided (SQL): the upsert input=input+excluded.input, aggregated balances, point-in-time reads, migration 11. Assumed: slices.SortStableFunc permutes. The final summation over entries (uniqueness of keys) is argued in DESIGN.md, not mechanised.", "ref": "DESIGN.md §4 C01"},
- "C02": {"text": "Same contracts as C01 read per entry: the delta for each (account, asset) equals (credits, debits) of the committed transaction's postings; reverts go through the same CommitTransaction (revertTransaction commits exactly one reversed transaction, C15); failed and dry-run writes commit nothing (C07). Volumes.Balance returns input - output as a fresh big integer.",
-         "note": "Not decided: that reads return what the upsert stored; PIT/aggregate SQL. Trusted: Store.UpdateVolumes adds each delta to the stored row.", "ref": "DESIGN.md §4 C02"},
- "C03": {"text": "Proved on Store.CommitTransaction for every posting list: tx.PostCommitVolumes is a deep copy of what UpdateVolumes returned, taken before the unwinding mutates the map (an alias-mutation obligation fails if the copy is dropped); with MOVES_HISTORY on, the unwinding loop visits the postings in reverse order and records, for posting i, a source move and a destination move whose post-commit volumes are the final volumes minus the (credits, debits) of the later postings (loop invariant over the reversed list, unbounded integers); 2 moves per posting, inserted once. PostCommitVolumes.AddInput/AddOutput/Copy/SubtractPostings have exact per-entry contracts with frames.",
-         "note": "Assumed: UpdateVolumes ... RETURNING gives the stored post-state for every updated (account, asset). 'Never change afterwards' is a storage fact. Moves.ComputePostCommitEffectiveVolumes and the effective-volume triggers are not covered (C04 n/a).", "ref": "DESIGN.md §4 C03"},
- "C06": {"text": "Sequential half of the overdraft property, proved for all inputs on the Go code: (1) Machine.withdrawAll takes max(0, balance+overdraft) and leaves the tracked balance at -overdraft or unchanged, never lower; (2) DefaultController.revertTransaction, when not forced, returns nil only if for every (account, asset) pair returned by GetBalances (= the original destinations) other than world, balance + credits - debits of the reversed postings is >= 0 (loop invariants over the reversed posting list, unbounded integers), and it never dereferences a missing balance (finding F1, fixed).",
-         "note": "Not decided (outside this technique): row locks / SELECT FOR UPDATE, READ COMMITTED interleavings, the insert-zero-row trick - every concurrent schedule. Assumed contract: Store.GetBalances returns exactly the requested pairs with non-nil values; Store.RevertTransaction returns well-formed postings. Machine.tick / compiler not covered here.", "ref": "DESIGN.md §4 C06"},
- "C07": {"text": "Go transaction discipline proved for every path (incl. the retry loop) of forgeLog, forgeLogRetry, runTx, runLog over a typestate model of Store handles: an error, a dry run or an idempotency hit commits nothing (nCommit, committedLogs, committedFnRuns unchanged); a successful non-dry-run write commits exactly once, with exactly one fn run and one InsertLog in the committed handle; every opened SQL transaction is closed; no pre-existing handle is written to. The seven functions run inside forgeLog (createTransaction, revertTransaction, the metadata writers, upsertTransactionAccounts) are proved to call mutating Store methods only on the store they were given.",
-         "note": "Assumed (trusted base): the Store interface contracts (BeginTX returns a fresh open handle, Commit/Rollback close it), i.e. Postgres really discards a rolled-back transaction; fault points inside one store method; uninterpreted callees (numscript runtime, tracing) do not call Store write methods. The link 'function passed as fn satisfies the fnparam contract' is checked by the concrete functions' own contracts having the same clauses, not by a generated refinement obligation.", "ref": "DESIGN.md §4 C07"},
- "C08": {"text": "Go half, proved for every path of forgeLog / forgeLogRetry / runTx / runLog (retry loop included) over the Store typestate model: a successful non-dry-run write that is not an idempotency hit commits exactly one SQL transaction containing exactly one InsertLog and one run of the operation (committedLogs + 1); an error, a dry run or an idempotency hit commits no log; runLog inserts at most one log, on the handle it was given, carrying the request's idempotency key, hash and schema version; the functions run inside forgeLog never call InsertLog (their write frame is the store they were given, and InsertLog is only reachable from runLog and importLog).",
-         "note": "Not decided (outside this technique): log ids strictly increase in commit order (Postgres sequence + advisory lock), replaying payloads reproduces the state (whole-history property over SQL). Assumed: Store interface contracts (InsertLog appends one row to the handle's transaction; Commit makes them durable).", "ref": "DESIGN.md §4 C08"},
- "C13": {"text": "Sequential half of idempotency, proved on forgeLog/forgeLogRetry/fetchLogWithIK/runLog: an idempotency hit or a hash mismatch runs no fn and commits nothing; a write commits at most once per call also across the retry loop; the retry never reuses a closed transaction handle; the stored log carries the request's key; revert's metadata helper does not mutate the request input that is hashed afterwards.",
-         "note": "Not decided: two concurrent sessions with the same key (unique index + READ COMMITTED). Assumed: an InsertLog failing with an idempotency-key conflict implies a committed log with that key is readable (the panic in forgeLogRetry is assumed unreachable on that ground); type assertion of the stored payload to the operation's output type succeeds; ComputeIdempotencyHash is a function of its input.", "ref": "DESIGN.md §4 C13"},
- "C15": {"text": "Proved for all posting lists: Postings.Reverse returns exactly the reversed list with source/destination swapped and amounts/assets kept (two loops with invariants); Transaction.Reverse/WithPostings/WithTimestamp carry it; revertTransaction returns nil only if the store reported the transaction as newly reverted, commits exactly one transaction whose postings are the reverse of the original, dated at the original timestamp (atEffectiveDate) or at RevertedAt, and marked with the reverts key = the original id (MarkReverts, Merge order).",
-         "note": "Assumed: Store.RevertTransaction returns modified=false for an already reverted transaction (conditional UPDATE; raced behaviour is a database property); metadata.Metadata.Merge lets its argument override (go-libs, mergo). Not covered: that balances return to their previous values in SQL.", "ref": "DESIGN.md §4 C15"},
- "C21": {"text": "Go half of cursor pagination, proved for every page size, result length and order: columnPaginator.Paginate issues LIMIT pageSize+1 (default 15), the order (flipped when reversing) and exactly the WHERE operator of the four (order, direction) cases; columnPaginator.BuildCursor returns min(len, pageSize) rows (reversed back on reverse pages), HasMore iff the extra row came back, next/previous cursors carrying the pagination id of the right row (index obligations included) and the bottom id; OffsetPaginator.Paginate/BuildCursor likewise with offset arithmetic (overflow and MaxInt32 guards).",
-         "note": "Assumed: the database returns rows matching ORDER/WHERE/LIMIT; the sort key is unique; cursor (de)serialisation is the identity; the pagination key of a row (reflection) is an uninterpreted function; the clauses on next/previous are assertions on local variables at the return statement because encodeCursor is opaque. A forged cursor with paginationID set and bottom null makes BuildCursor dereference nil when the page is empty (precondition of the contract; candidate finding noted in DESIGN.md).", "ref": "DESIGN.md §4 C21"},
- "C22": {"text": "Component level (the VM step invariant over Machine.tick is not established yet): Funding.Take / TakeMax / Concat / Total / Reverse, Machine.withdrawAll / withdrawAlways / credit / repay and the MonetaryInt arithmetic are proved for all inputs (unbounded integers, any number of parts): Take returns exactly the requested amount or an insufficient-funds error iff amount < 0 or > total; per-account conservation result + remainder == input; Concat adds per-account sums; credit/repay change exactly the tracked balances of the accounts involved by the funding's per-account sums.",
-         "note": "Not proved: composition of opcodes in Machine.tick/Execute and the compile scheme (ANTLR visitors) that turns a send statement into TAKE ... SEND. Concat overwrites the receiver's last part in place (value semantics for slices assumed at call sites). machine.Zero is treated as the constant 0.", "ref": "DESIGN.md §4 C22"},
- "C23": {"text": "Component level: Machine.withdrawAll is proved to take exactly max(0, T+o) from a tracked (account, asset) and to leave the tracked balance at -o (if T+o > 0) or T, leaving every other pair untouched and failing on untracked pairs; withdrawAlways, credit and repay have exact frame conditions over all (account, asset) pairs; Funding operations conserve per-account sums.",
-         "note": "The inductive invariant J over Machine.tick (DESIGN Appendix B) that lifts these to 'no bounded source ends below min(initial, -bound)' for every bytecode program is not established yet; the compiler's choice of TAKE_ALL vs TAKE_ALWAYS is read, not proved.", "ref": "DESIGN.md §4 C23"},
- "C24": {"text": "Allotment.Allocate is proved, for every non-negative amount (unbounded integer) and every portion vector with positive denominators summing to 1, to return parts that sum exactly to the amount, each equal to the floor share plus one unit for the earliest L parts where L is the leftover (0 <= L < number of parts). Loop invariants incl. the nonlinear floor sandwich are discharged by SMT.",
-         "note": "Proved on the Go code of internal/machine/allotment.go and monetary.go. Assumed: math/big is exact and big.Int.Div is Euclidean; big.Rat denominators are positive. Not covered: NewAllotment (rational arithmetic), the compiler's check that portions total 100% (ANTLR visitors).", "ref": "DESIGN.md §4 C24"},
- "C27": {"text": "Panic-freedom, for all inputs, of the functions that turn client strings into machine values and of the script builder: NewValueFromString (all six types; the JSON null number, finding F5, fixed), ParsePortionSpecific / NewPortionSpecific, ParseMonetary, ValidateAccountAddress / ValidateAsset, TxToScriptData (its three panics are proved unreachable by a loop invariant over the variable maps). Postconditions state what a successfully parsed value satisfies (non-nil, valid address/asset, amount >= 0).",
-         "note": "NOT covered yet: Machine.ResolveResources / ResolveBalances / tick / Execute (the VM step) and the ANTLR-generated compiler; regular expressions are uninterpreted predicates; regexp.FindStringSubmatch group counts are assumed.", "ref": "DESIGN.md §4 C27"},
- "C28": {"text": "Validation dominance, proved on every path: every call of Store.CommitTransaction in the controller (createTransaction for scripts, templates and postings requests; revertTransaction; importLog) is reached only with postings that satisfy Postings.Validate's predicate (non-nil amount >= 0, valid source/destination address, valid asset). Postings.Validate itself is proved to decide exactly that predicate and to return the first offending index. Two gaps were found and fixed (script results, imported logs).",
-         "note": "Assumed: stored transactions returned by Store.RevertTransaction are well formed; accounts.Pattern / assets.Pattern are uninterpreted predicates. Not covered: direct SQL writes, migrations.", "ref": "DESIGN.md §4 C28"},
- "C29": {"text": "Go control flow of schema enforcement, proved for every path: runLog - a named schema version that does not exist yields ErrSchemaNotFound, a lookup failure yields an error, both before the operation runs and without a log; without a version, when the payload needs a schema and one exists, strict mode returns ErrSchemaNotSpecified without running the operation or inserting a log, while audit mode runs it; a log failing ValidateWithSchema is not inserted in strict mode. createTransaction - on a schema with templates a template-less request is rejected in strict mode, an unknown template is rejected, a template on a schema without templates is rejected, all before any store write; the committed transaction carries the template name. CreatedTransaction.ValidateWithSchema returns nil iff every posting's source and destination are accepted by the chart (loop invariant, any number of postings); ChartOfAccounts.ValidatePosting likewise; ChartAccount.DefaultMetadata returns exactly the keys with a default and their values.",
-         "note": "The recursive chart walk findAccountSchema (map-of-struct recursion, regexp) is outside the verified subset: its verdict is the uninterpreted predicate chartAccepts, so which addresses a chart accepts is NOT decided. Not decided: 'never overwrite existing values' and 'no effect' persistence (UpsertAccounts SQL, rollback = C07), AccountsWithDefaultMetadata (generic Map over a closure).", "ref": "DESIGN.md §4 C29"},
- "C31": {"text": "Proved on ControllerWithEvents: handleEvent never invokes a callback while hasTx; the seven write wrappers hand exactly one callback to handleEvent iff the underlying call returned nil and the request is not a dry run; Commit invokes the queued callbacks only after the underlying Commit returned nil and returns nil iff it did; Rollback drops them; BeginTX yields hasTx=true and LockLedger inherits hasTx (finding F2, fixed). Together with C07's forgeLog contract (nil only after commit) no event precedes or lacks its commit on these paths.",
-         "note": "Assumed: the underlying Controller publishes nothing itself; Controller.LockLedger on a transactional handle stays in that transaction. The parent chain is modelled read-only (queueing on the parent is not written back: no heap model). Not covered: internal/bus (the listener turning callbacks into messages - seeded change C31-3 is missed), controllerFacade.handleState, atomic bulk (C32).", "ref": "DESIGN.md §4 C31"},
- "C32": {"text": "Proved on Bulker.Run for all options: atomic+parallel is rejected before anything runs; a non-atomic bulk never begins, commits or rolls back a controller transaction and runs on the bulker's controller; an atomic bulk runs on the controller returned by BeginTX, rolls back exactly once and never commits when an element failed, and attempts exactly one commit (error propagated) otherwise. processElement is proved to issue at most one controller write per element, exactly one on success, on the given controller, with the element's idempotency key, the bulk's schema version and DryRun=false, and never to panic for a decoded element.",
-         "note": "Assumed (outside the subset: goroutines, select, channels, worker pool): Bulker.run runs elements on the controller it is given, reports hasError iff an element failed, and stops after the first failure unless continueOnFailure; FIFO order of a one-worker pool; UnmarshalBulkElementPayload yields the payload type matching the action (precondition of processElement).", "ref": "DESIGN.md §4 C32"},
- "C38": {"text": "Panic-freedom of request-decoding paths, for all inputs: v1 Script.ToCore (F6 fixed), ScriptV1.ToCore, TransactionRequest.ToCore, Postings.Validate, TxToScriptData, Bulker.processElement, LogType / SavedMetadata / DeletedMetadata UnmarshalJSON (F9, F10 fixed) and importLog (F11 fixed: nil ids, unchecked type assertions on imported logs, which run in a goroutine outside the recover middleware).",
-         "note": "Not covered: the chi router and status-code mapping of every route, HydrateLog's reflection, DefaultController.Import's outer loop (reads through an interface chain that is opaque). 'Ledger unchanged' is C07.", "ref": "DESIGN.md §4 C38"},
-}
+CLAIMS = {'C01': {'note': 'Not decided (SQL): the upsert input=input+excluded.input, aggregated balances, point-in-time reads, migration 11. Assumed: slices.SortStableFunc permutes. The final summation over '
+                 'entries (uniqueness of keys) is argued in DESIGN.md, not mechanised.',
+         'ref': 'DESIGN.md §4 C01',
+         'text': 'Go link of double-entry conservation, proved for every posting list: Transaction.VolumeUpdates returns, for every (account, asset) touched by a posting, an entry whose Input is '
+                 'exactly the sum of the amounts credited to that pair and whose Output is exactly the sum debited (source==destination postings counted on both sides), every entry is of that form '
+                 '(also after the stable sort), and Store.CommitTransaction hands exactly that list to UpdateVolumes, once. Hence the delta applied to stored volumes has, per asset, equal total '
+                 'input and output = the sum of posting amounts.'},
+ 'C02': {'note': 'Not decided: that reads return what the upsert stored; PIT/aggregate SQL. Trusted: Store.UpdateVolumes adds each delta to the stored row.',
+         'ref': 'DESIGN.md §4 C02',
+         'text': "Same contracts as C01 read per entry: the delta for each (account, asset) equals (credits, debits) of the committed transaction's postings; reverts go through the same "
+                 'CommitTransaction (revertTransaction commits exactly one reversed transaction, C15); failed and dry-run writes commit nothing (C07). Volumes.Balance returns input - output as a '
+                 'fresh big integer.'},
+ 'C03': {'note': "Assumed: UpdateVolumes ... RETURNING gives the stored post-state for every updated (account, asset). 'Never change afterwards' is a storage fact. "
+                 'Moves.ComputePostCommitEffectiveVolumes and the effective-volume triggers are not covered (C04 n/a).',
+         'ref': 'DESIGN.md §4 C03',
+         'text': 'Proved on Store.CommitTransaction for every posting list: tx.PostCommitVolumes is a deep copy of what UpdateVolumes returned, taken before the unwinding mutates the map (an '
+                 'alias-mutation obligation fails if the copy is dropped); with MOVES_HISTORY on, the unwinding loop visits the postings in reverse order and records, for posting i, a source move '
+                 'and a destination move whose post-commit volumes are the final volumes minus the (credits, debits) of the later postings (loop invariant over the reversed list, unbounded '
+                 'integers); 2 moves per posting, inserted once. PostCommitVolumes.AddInput/AddOutput/Copy/SubtractPostings have exact per-entry contracts with frames.'},
+ 'C06': {'note': 'Not decided (outside this technique): row locks / SELECT FOR UPDATE, READ COMMITTED interleavings, the insert-zero-row trick - every concurrent schedule. Assumed contract: '
+                 'Store.GetBalances returns exactly the requested pairs with non-nil values; Store.RevertTransaction returns well-formed postings. Machine.tick / compiler not covered here.',
+         'ref': 'DESIGN.md §4 C06',
+         'text': 'Sequential half of the overdraft property, proved for all inputs on the Go code: (1) Machine.withdrawAll takes max(0, balance+overdraft) and leaves the tracked balance at '
+                 '-overdraft or unchanged, never lower; (2) DefaultController.revertTransaction, when not forced, returns nil only if for every (account, asset) pair returned by GetBalances (= the '
+                 'original destinations) other than world, balance + credits - debits of the reversed postings is >= 0 (loop invariants over the reversed posting list, unbounded integers), and it '
+                 'never dereferences a missing balance (finding F1, fixed).'},
+ 'C07': {'note': 'Assumed (trusted base): the Store interface contracts (BeginTX returns a fresh open handle, Commit/Rollback close it), i.e. Postgres really discards a rolled-back transaction; '
+                 "fault points inside one store method; uninterpreted callees (numscript runtime, tracing) do not call Store write methods. The link 'function passed as fn satisfies the fnparam "
+                 "contract' is checked by the concrete functions' own contracts having the same clauses, not by a generated refinement obligation.",
+         'ref': 'DESIGN.md §4 C07',
+         'text': 'Go transaction discipline proved for every path (incl. the retry loop) of forgeLog, forgeLogRetry, runTx, runLog over a typestate model of Store handles: an error, a dry run or an '
+                 'idempotency hit commits nothing (nCommit, committedLogs, committedFnRuns unchanged); a successful non-dry-run write commits exactly once, with exactly one fn run and one InsertLog '
+                 'in the committed handle; every opened SQL transaction is closed; no pre-existing handle is written to. The seven functions run inside forgeLog (createTransaction, '
+                 'revertTransaction, the metadata writers, upsertTransactionAccounts) are proved to call mutating Store methods only on the store they were given.'},
+ 'C08': {'note': 'Not decided (outside this technique): log ids strictly increase in commit order (Postgres sequence + advisory lock), replaying payloads reproduces the state (whole-history property '
+                 "over SQL). Assumed: Store interface contracts (InsertLog appends one row to the handle's transaction; Commit makes them durable).",
+         'ref': 'DESIGN.md §4 C08',
+         'text': 'Go half, proved for every path of forgeLog / forgeLogRetry / runTx / runLog (retry loop included) over the Store typestate model: a successful non-dry-run write that is not an '
+                 'idempotency hit commits exactly one SQL transaction containing exactly one InsertLog and one run of the operation (committedLogs + 1); an error, a dry run or an idempotency hit '
+                 "commits no log; runLog inserts at most one log, on the handle it was given, carrying the request's idempotency key, hash and schema version; the functions run inside forgeLog never "
+                 'call InsertLog (their write frame is the store they were given, and InsertLog is only reachable from runLog and importLog).'},
+ 'C13': {'note': 'Not decided: two concurrent sessions with the same key (unique index + READ COMMITTED). Assumed: an InsertLog failing with an idempotency-key conflict implies a committed log with '
+                 "that key is readable (the panic in forgeLogRetry is assumed unreachable on that ground); type assertion of the stored payload to the operation's output type succeeds; "
+                 'ComputeIdempotencyHash is a function of its input.',
+         'ref': 'DESIGN.md §4 C13',
+         'text': 'Sequential half of idempotency, proved on forgeLog/forgeLogRetry/fetchLogWithIK/runLog: an idempotency hit or a hash mismatch runs no fn and commits nothing; a write commits at '
+                 "most once per call also across the retry loop; the retry never reuses a closed transaction handle; the stored log carries the request's key; revert's metadata helper does not "
+                 'mutate the request input that is hashed afterwards.'},
+ 'C15': {'note': 'Assumed: Store.RevertTransaction returns modified=false for an already reverted transaction (conditional UPDATE; raced behaviour is a database property); metadata.Metadata.Merge '
+                 'lets its argument override (go-libs, mergo). Not covered: that balances return to their previous values in SQL.',
+         'ref': 'DESIGN.md §4 C15',
+         'text': 'Proved for all posting lists: Postings.Reverse returns exactly the reversed list with source/destination swapped and amounts/assets kept (two loops with invariants); '
+                 'Transaction.Reverse/WithPostings/WithTimestamp carry it; revertTransaction returns nil only if the store reported the transaction as newly reverted, commits exactly one transaction '
+                 'whose postings are the reverse of the original, dated at the original timestamp (atEffectiveDate) or at RevertedAt, and marked with the reverts key = the original id (MarkReverts, '
+                 'Merge order).'},
+ 'C21': {'note': 'Assumed: the database returns rows matching ORDER/WHERE/LIMIT; the sort key is unique; cursor (de)serialisation is the identity; the pagination key of a row (reflection) is an '
+                 'uninterpreted function; the clauses on next/previous are assertions on local variables at the return statement because encodeCursor is opaque. A forged cursor with paginationID set '
+                 'and bottom null makes BuildCursor dereference nil when the page is empty (precondition of the contract; candidate finding noted in DESIGN.md).',
+         'ref': 'DESIGN.md §4 C21',
+         'text': 'Go half of cursor pagination, proved for every page size, result length and order: columnPaginator.Paginate issues LIMIT pageSize+1 (default 15), the order (flipped when reversing) '
+                 'and exactly the WHERE operator of the four (order, direction) cases; columnPaginator.BuildCursor returns min(len, pageSize) rows (reversed back on reverse pages), HasMore iff the '
+                 'extra row came back, next/previous cursors carrying the pagination id of the right row (index obligations included) and the bottom id; OffsetPaginator.Paginate/BuildCursor likewise '
+                 'with offset arithmetic (overflow and MaxInt32 guards).'},
+ 'C22': {'note': 'Trusted about compiler output (listed in the tick contract as requires): the typed stack discipline (every pop finds a value of the demanded type; assumed contract of '
+                 'pop/popValue), OP_APUSH operand bytes, OP_BUMP / MAKE_ALLOTMENT / FUNDING_ASSEMBLE counts within the stack, OP_TAKE_ALWAYS / OP_SAVE / OP_ALLOC amounts >= 0, OP_ALLOC allotment '
+                 "sums to 1. Not proved: the compile scheme (ANTLR visitors) that turns a send statement into TAKE ... SEND, Machine.Execute's loop (goroutine + defer; the induction over ticks is "
+                 "the standard invariant argument, DESIGN Appendix B), NewAllotment (assumed). Concat overwrites the receiver's last part in place (value semantics for slices assumed at call sites).",
+         'ref': 'DESIGN.md §4 C22',
+         'text': 'VM level, for every bytecode program (a superset of compiled scripts): Machine.tick is verified opcode by opcode (90 paths) against a step contract. With R(a,x) = credits - debits '
+                 'of the emitted postings minus the funds still in flight on the stack, every successful step keeps all stack fundings and posting amounts non-negative and non-nil, appends postings '
+                 'only in OP_SEND and then exactly one per part of the popped funding (source = part account, destination = popped account, same asset, same amount, in order), and changes each '
+                 'tracked non-world balance by exactly the change of R (exact conservation: nothing is created or lost between balances, in-flight funds and postings) for every opcode except OP_SAVE '
+                 'and a metadata/print/asset opcode applied to a funding. Component contracts underneath, all proved for all inputs (unbounded integers, any number of parts): Funding.Take returns '
+                 'exactly the requested amount or an insufficient-funds error iff amount < 0 or > total; Take/TakeMax/Concat/Reverse conserve per-account sums; '
+                 'credit/repay/withdrawAll/withdrawAlways change exactly the balances they name.'},
+ 'C23': {'note': 'Trusted: the operand conditions listed under C22 (stack discipline of compiler output), that the compiler emits OP_TAKE_ALWAYS only for @world and sources declared unbounded (read '
+                 "off VisitSource, not proved), the induction over Execute's loop (argued in DESIGN Appendix B, not mechanised: Execute starts a goroutine and defers a close). ResolveBalances "
+                 'establishing T = R = initial is not under contract.',
+         'ref': 'DESIGN.md §4 C23',
+         'text': "VM level, for every bytecode program: with T the machine's tracked balance and R = initial + credits - debits - in-flight funds (the real balance if everything in flight were "
+                 "sent), Machine.tick is proved to satisfy, for every tracked (account, asset) and every opcode: (1) T' - T <= R' - R, hence T <= R is inductive (the machine's view is never "
+                 "optimistic); (2) R' >= R for every opcode other than OP_TAKE_ALL / OP_TAKE_ALWAYS; (3) OP_TAKE_ALL on (a,x) with overdraft o lowers R by exactly max(0, T+o), so with (1) R' >= "
+                 'min(R, -o); OP_TAKE_ALWAYS (unbounded sources only) lowers R by the amount taken; tracked pairs stay tracked. By induction over ticks a bounded source never ends below min(initial, '
+                 '-largest bound granted), for all amounts and all programs. withdrawAll takes exactly max(0, T+o) and leaves T at -o or unchanged; credit/repay/withdrawAlways have exact frames.'},
+ 'C24': {'note': 'Proved on the Go code of internal/machine/allotment.go and monetary.go. Assumed: math/big is exact and big.Int.Div is Euclidean; big.Rat denominators are positive. Not covered: '
+                 "NewAllotment (rational arithmetic), the compiler's check that portions total 100% (ANTLR visitors).",
+         'ref': 'DESIGN.md §4 C24',
+         'text': 'Allotment.Allocate is proved, for every non-negative amount (unbounded integer) and every portion vector with positive denominators summing to 1, to return parts that sum exactly '
+                 'to the amount, each equal to the floor share plus one unit for the earliest L parts where L is the leftover (0 <= L < number of parts). Loop invariants incl. the nonlinear floor '
+                 'sandwich are discharged by SMT.'},
+ 'C27': {'note': "NOT covered: Machine.ResolveResources / ResolveBalances / Execute's loop and the ANTLR-generated compiler (arbitrary bytes -> program); the typed-stack operand conditions of tick "
+                 "are trusted about compiler output; OP_PRINT's channel send is dropped; regular expressions are uninterpreted predicates; regexp.FindStringSubmatch group counts are assumed.",
+         'ref': 'DESIGN.md §4 C27',
+         'text': 'Panic-freedom, for all inputs, of the functions that turn client strings into machine values and of the script builder: NewValueFromString (all six types; the JSON null number, '
+                 'finding F5, fixed), ParsePortionSpecific / NewPortionSpecific, ParseMonetary, ValidateAccountAddress / ValidateAsset, TxToScriptData (its three panics are proved unreachable by a '
+                 'loop invariant over the variable maps). Postconditions state what a successfully parsed value satisfies (non-nil, valid address/asset, amount >= 0). Machine.tick: for every opcode '
+                 'and every machine state satisfying the operand conditions, no nil dereference, no out-of-range index, no failed type assertion, no reachable panic (OP_SAVE default case), no '
+                 'nil-map write; the program counter strictly increases on every successful step (so Execute terminates within len(Instructions) steps).'},
+ 'C28': {'note': 'Assumed: stored transactions returned by Store.RevertTransaction are well formed; accounts.Pattern / assets.Pattern are uninterpreted predicates. Not covered: direct SQL writes, '
+                 'migrations.',
+         'ref': 'DESIGN.md §4 C28',
+         'text': 'Validation dominance, proved on every path: every call of Store.CommitTransaction in the controller (createTransaction for scripts, templates and postings requests; '
+                 "revertTransaction; importLog) is reached only with postings that satisfy Postings.Validate's predicate (non-nil amount >= 0, valid source/destination address, valid asset). "
+                 'Postings.Validate itself is proved to decide exactly that predicate and to return the first offending index. Two gaps were found and fixed (script results, imported logs).'},
+ 'C29': {'note': 'The recursive chart walk findAccountSchema (map-of-struct recursion, regexp) is outside the verified subset: its verdict is the uninterpreted predicate chartAccepts, so which '
+                 "addresses a chart accepts is NOT decided. Not decided: 'never overwrite existing values' and 'no effect' persistence (UpsertAccounts SQL, rollback = C07), "
+                 'AccountsWithDefaultMetadata (generic Map over a closure).',
+         'ref': 'DESIGN.md §4 C29',
+         'text': 'Go control flow of schema enforcement, proved for every path: runLog - a named schema version that does not exist yields ErrSchemaNotFound, a lookup failure yields an error, both '
+                 'before the operation runs and without a log; without a version, when the payload needs a schema and one exists, strict mode returns ErrSchemaNotSpecified without running the '
+                 'operation or inserting a log, while audit mode runs it; a log failing ValidateWithSchema is not inserted in strict mode. createTransaction - on a schema with templates a '
+                 'template-less request is rejected in strict mode, an unknown template is rejected, a template on a schema without templates is rejected, all before any store write; the committed '
+                 "transaction carries the template name. CreatedTransaction.ValidateWithSchema returns nil iff every posting's source and destination are accepted by the chart (loop invariant, any "
+                 'number of postings); ChartOfAccounts.ValidatePosting likewise; ChartAccount.DefaultMetadata returns exactly the keys with a default and their values.'},
+ 'C31': {'note': 'Assumed: the underlying Controller publishes nothing itself; Controller.LockLedger on a transactional handle stays in that transaction. The parent chain is modelled read-only '
+                 '(queueing on the parent is not written back: no heap model). Not covered: internal/bus (the listener turning callbacks into messages - seeded change C31-3 is missed), '
+                 'controllerFacade.handleState, atomic bulk (C32).',
+         'ref': 'DESIGN.md §4 C31',
+         'text': 'Proved on ControllerWithEvents: handleEvent never invokes a callback while hasTx; the seven write wrappers hand exactly one callback to handleEvent iff the underlying call returned '
+                 'nil and the request is not a dry run; Commit invokes the queued callbacks only after the underlying Commit returned nil and returns nil iff it did; Rollback drops them; BeginTX '
+                 "yields hasTx=true and LockLedger inherits hasTx (finding F2, fixed). Together with C07's forgeLog contract (nil only after commit) no event precedes or lacks its commit on these "
+                 'paths.'},
+ 'C32': {'note': 'Assumed (outside the subset: goroutines, select, channels, worker pool): Bulker.run runs elements on the controller it is given, reports hasError iff an element failed, and stops '
+                 'after the first failure unless continueOnFailure; FIFO order of a one-worker pool; UnmarshalBulkElementPayload yields the payload type matching the action (precondition of '
+                 'processElement).',
+         'ref': 'DESIGN.md §4 C32',
+         'text': 'Proved on Bulker.Run for all options: atomic+parallel is rejected before anything runs; a non-atomic bulk never begins, commits or rolls back a controller transaction and runs on '
+                 "the bulker's controller; an atomic bulk runs on the controller returned by BeginTX, rolls back exactly once and never commits when an element failed, and attempts exactly one "
+                 "commit (error propagated) otherwise. processElement is proved to issue at most one controller write per element, exactly one on success, on the given controller, with the element's "
+                 "idempotency key, the bulk's schema version and DryRun=false, and never to panic for a decoded element."},
+ 'C38': {'note': "Not covered: the chi router and status-code mapping of every route, HydrateLog's reflection, DefaultController.Import's outer loop (reads through an interface chain that is "
+                 "opaque). 'Ledger unchanged' is C07.",
+         'ref': 'DESIGN.md §4 C38',
+         'text': 'Panic-freedom of request-decoding paths, for all inputs: v1 Script.ToCore (F6 fixed), ScriptV1.ToCore, TransactionRequest.ToCore, Postings.Validate, TxToScriptData, '
+                 'Bulker.processElement, LogType / SavedMetadata / DeletedMetadata UnmarshalJSON (F9, F10 fixed) and importLog (F11 fixed: nil ids, unchecked type assertions on imported logs, which '
+                 'run in a goroutine outside the recover middleware).'}}
+
 NA = {
  "C04": "Effective volumes are computed by the PL/pgSQL triggers set_effective_volumes / update_effective_volumes; no Go function computes them, so no contract on the Go code can state or decide the property.",
  "C05": "Point-in-time / window reads are SQL text (first_value ... over, date predicates); a contract can say which string was built, not what Postgres returns for it.",
